@@ -129,9 +129,10 @@ def interpolate_dataset(
     if periodic_coordinates is None:
         periodic_coordinates = {longitude_variable_in_dataset: 360}
 
+    periodic_data = {} if periodic_data is None else dict(periodic_data)
     for variable in data_set:
-        if "direction" in str(variable).lower():
-            periodic_data = {variable: (360, 360)}
+        if "direction" in str(variable).lower() and variable not in periodic_data:
+            periodic_data[variable] = (360, 360)
 
     out = {}
     for name, track in geometry.tracks.items():
